@@ -30,7 +30,7 @@ def oracle(case, line):
         if "wrongdigest" in ks:
             bad.append(("wrong-digest", "chunk %s delivered with a wrong digest" % c))
     if err == "1":
-        bad.append(("orphan-result", "internal_error thrown (done chunk without node)"))
+        bad.append(("internal-error", "internal_error thrown in the main or disk thread (orphan result / unmapped or invalid chunk)"))
     if pushes != len(seen) + h:
         bad.append(("lost-chunk", "pushed=%d but notified=%d + still queued nodes=%d" % (pushes, len(seen), h)))
     mb = re.search(r"B (\d+)", extra)
